@@ -20,6 +20,7 @@ Numerics / failing-input search: a degree-6 Earth-Moon L1 centre manifold; maps 
 from __future__ import annotations
 
 import itertools
+import json
 import math
 import os
 import time
@@ -1088,15 +1089,79 @@ def numerics(ctx):
     import logging
     import numba
     logging.disable(logging.INFO)
+    started = start_thread_children(ctx)
     try:
-        _numerics(ctx, numba)
+        _numerics(ctx, numba, started)
     except MapRaised as ex:
         ctx.violation("map-computation-raises:" + ex.args[1]["section_coord"], ex.args[0], ex.args[1])
     finally:
         logging.disable(logging.NOTSET)
+        import shutil
+        for k in started[1]:
+            if k[4].poll() is None:
+                k[4].kill()
+        shutil.rmtree(started[0], ignore_errors=True)
 
 
-def _numerics(ctx, numba):
+def start_thread_children(ctx):
+    """numba thread counts that really reach the engine's worker threads: child processes with NUMBA_NUM_THREADS in the environment
+    (started first, collected after the in-process checks)"""
+    import subprocess
+    import sys
+    import tempfile
+    plan = [(1, "q3", 3), (3, "p2", 2)] + ([(2, "q2", 5), (5, "p3", 3), (16, "q3", 16), (7, "p2", 8)] if ctx.thorough() else [])
+    kids = []
+    d = tempfile.mkdtemp(prefix="c14_children_")
+    for nt, sec, nw in plan:
+        out = os.path.join(d, "t%d_%s_%d.json" % (nt, sec, nw))
+        env = dict(os.environ, NUMBA_NUM_THREADS=str(nt))
+        p = subprocess.Popen([sys.executable, os.path.join(os.path.dirname(os.path.abspath(__file__)), "c14_child.py"), sec, str(nw), out],
+                             env=env, stdout=subprocess.PIPE, stderr=subprocess.STDOUT, text=True)
+        kids.append((nt, sec, nw, out, p))
+    return d, kids
+
+
+def collect_thread_children(ctx, started, base):
+    import shutil
+    d, kids = started
+    try:
+        for nt, sec, nw, out, p in kids:
+            try:
+                log, _ = p.communicate(timeout=1500)
+            except Exception:
+                p.kill()
+                log = "timeout"
+            ctx.case(("threads-env", nt, sec, nw), nontrivial=True, kind="numba-threads-env")
+            if p.returncode != 0 or not os.path.exists(out):
+                ctx.violation("map-computation-raises:threads:" + sec, "computing the map with NUMBA_NUM_THREADS=%d, n_workers=%d failed: %s" % (nt, nw, (log or "")[-300:]),
+                              {"NUMBA_NUM_THREADS": nt, "n_workers": nw, "section_coord": sec, "log": (log or "")[-600:]})
+                continue
+            got = json.load(open(out))
+            r = {"states": np.asarray(got["states"], dtype=float).reshape(-1, 4), "times": np.asarray(got["times"], dtype=float)}
+            # Different numba thread counts re-associate the per-thread partial sums of the polynomial kernels that BUILD the centre manifold
+            # (observed: 3 threads vs 1 or 16 threads differ by 1.3e-15 in the map rows): the sets are compared up to rounding (1e-10), each
+            # row of one set having exactly one partner in the other; worker counts (same process, same manifold) are compared bitwise above.
+            A = np.column_stack([r["states"], r["times"]])
+            B = np.column_stack([base[sec]["states"], base[sec]["times"]])
+            na, nb = len(A), len(B)
+            if na == nb and na > 0:
+                D = np.abs(A[:, None, :] - B[None, :, :]).max(axis=2)
+                near = D <= 1e-10
+                ok = bool(np.all(near.sum(axis=0) == 1) and np.all(near.sum(axis=1) == 1))
+                diff = int((near.sum(axis=1) != 1).sum())
+            else:
+                ok, diff = (na == nb), abs(na - nb)
+            ctx.extra.setdefault("thread_env_max_row_difference", {})["%d threads/%s" % (nt, sec)] = float(D.min(axis=1).max()) if na == nb and na > 0 else None
+            if not ok:
+                ctx.violation("thread-count-changes-points:" + sec,
+                              "NUMBA_NUM_THREADS=%d (n_workers=%d) returns a different set of (state, time) rows than the reference run (n_workers=1): %d vs %d rows, %d differing"
+                              % (nt, nw, na, nb, diff),
+                              {"NUMBA_NUM_THREADS": nt, "n_workers": nw, "section_coord": sec, "energy": 0.6, "rows": na, "rows_reference": nb, "differing": diff})
+    finally:
+        shutil.rmtree(d, ignore_errors=True)
+
+
+def _numerics(ctx, numba, started):
     C = get_cm(ctx, 6)
     h0 = 0.6
     report = {}
@@ -1140,6 +1205,7 @@ def _numerics(ctx, numba):
                               "n_workers=%d (numba threads %d) returns a different set of (state, time) rows than n_workers=1: %d vs %d rows, %d differing"
                               % (nw, nt, na, nb, diff),
                               {"config": r["cfg"], "numba_threads": nt, "rows": na, "rows_n_workers_1": nb, "differing": diff})
+    collect_thread_children(ctx, started, base)
     ctx.log("worker/thread counts: %.1fs" % (time.time() - t0))
     # other integrators / orders / strategies / energies
     t0 = time.time()
@@ -1257,11 +1323,11 @@ def run(ctx):
     logging.disable(logging.INFO)
     try:
         if tr is not None:
-            validate_traces(ctx, tr)
-        corr_split(ctx)
-        corr_detect(ctx)
-        corr_step(ctx)
-        corr_engine(ctx)
+            ctx.guard("validate_traces", validate_traces, ctx, tr)
+        ctx.guard("corr_split", corr_split, ctx)
+        ctx.guard("corr_detect", corr_detect, ctx)
+        ctx.guard("corr_step", corr_step, ctx)
+        ctx.guard("corr_engine", corr_engine, ctx)
     finally:
         logging.disable(logging.NOTSET)
     # real maps: supporting evidence when everything holds, failing-input search when an obligation or a correspondence broke
